@@ -12,6 +12,7 @@ func init() {
 			return []runner.Job{
 				{Harness: "c09.chunks", Mode: "plain", Shards: 16},
 				{Harness: "c09.long", Mode: "plain", Shards: 16},
+				{Harness: "c09.longtyped", Mode: "plain", Shards: 16},
 				{Harness: "c09.faults", Mode: "plain", Shards: 8},
 				{Harness: "c09.multi", Mode: "plain", Shards: 16},
 				{Harness: "c09.strings", Mode: "plain", Shards: 16},
